@@ -7,6 +7,7 @@ mod c10;
 mod c14;
 mod c33;
 mod c20;
+mod c20_policy;
 mod strings;
 
 type SearchResult = (u64, Option<(Value, Outcome)>);
@@ -28,6 +29,7 @@ fn run_inner(case: &str, args: &Value) -> Option<Outcome> {
         "c08_num" | "c08_num_search_maximum" | "c08_num_search_minimum" | "c08_num_search_multiple_of" => Some(c08::num(args)),
         "c08_len" => Some(c08::len(args)),
         "c07_int" => Some(c07::int(args)),
+        "c20_policy" => Some(c20_policy::policy(args)),
         "c10_depth" => Some(c10::depth_case(args)),
         "c10_directives" => Some(c10::directives_case(args)),
         "c33_subtype" => Some(c33::subtype(args)),
@@ -46,6 +48,7 @@ pub fn search(case: &str, seed: u64, open: &[String]) -> Option<SearchResult> {
         "c08_num_search_multiple_of" => Box::new(c08::num_inputs("multiple_of", seed)),
         "c08_len" => Box::new(c08::len_inputs(seed)),
         "c07_int" => Box::new(c07::int_inputs(seed)),
+        "c20_policy" => Box::new(c20_policy::inputs(seed)),
         "c10_depth" | "c10_directives" => Box::new(c10::doc_inputs(seed)),
         "c33_subtype" => Box::new(c33::inputs(seed)),
         "c14_pos" => Box::new(c14::pos_inputs(seed)),
